@@ -16,6 +16,7 @@ import (
 
 	"verif/engines/vsim"
 	"verif/lib/bmgen"
+	"verif/lib/bmsys"
 	"verif/lib/vlib"
 
 	"github.com/BondMachineHQ/BondMachine/pkg/basm"
@@ -246,4 +247,117 @@ func hwOptCheck(run *vlib.Run, table coimplTable) []map[string]any {
 	run.Add("transitions", compared*48)
 	run.Add("traces_validated_against_impl", compared*2)
 	return []map[string]any{{"programs": len(progs), "compared_cycle_by_cycle": compared, "with_pruned_case_arms": pruned, "skipped": skipped, "skip_reasons": skipWhy}}
+}
+
+// ---------------------------------------------------------------------------------------------------------------
+// C01, "with its ROM": the product machine above plays the ROM itself, so the generated ROM file is never read there.
+// Here whole programs WITH a ROM data section go through the real basm pipeline, the complete generated file set
+// (processor, real ROM with code followed by data) runs under vsim and the same machine on the Go simulator; both
+// are sampled after every clock / tick and the sequences of distinct (o0, o1) values must be the same.
+
+func romDataProgram(code []string, data []string) string {
+	var sb strings.Builder
+	sb.WriteString("%section prog .romtext iomode:async\n\tentry _start\n_start:\n")
+	for _, l := range code {
+		sb.WriteString("\t" + l + "\n")
+	}
+	sb.WriteString("hl:\n\tj hl\n%endsection\n\n%section consts .romdata\n")
+	for _, l := range data {
+		sb.WriteString("\t" + l + "\n")
+	}
+	sb.WriteString("%endsection\n\n%meta cpdef p0 romcode: prog, romdata: consts\n")
+	sb.WriteString("%meta ioatt l0 cp: p0, index:0, type:output\n%meta ioatt l0 cp: bm, index:0, type:output\n")
+	sb.WriteString("%meta ioatt l1 cp: p0, index:1, type:output\n%meta ioatt l1 cp: bm, index:1, type:output\n")
+	sb.WriteString("%meta bmdef global registersize:8\n")
+	return sb.String()
+}
+
+func distinctSeq(seq [][2]uint64) [][2]uint64 {
+	var out [][2]uint64
+	for _, v := range seq {
+		if len(out) == 0 || out[len(out)-1] != v {
+			out = append(out, v)
+		}
+	}
+	return out
+}
+
+func romDataCheck(run *vlib.Run) map[string]any {
+	datas := [][]string{
+		{"tab db 0x11, 0x22, 0x33"},
+		{"one db 0x2a", "tab db 0x11, 0x22, 0x33", "last db 0x7f"},
+		{"tab db 0x05", "more db 0xa5, 0x3c"},
+	}
+	codes := [][]string{
+		{"mov r1, rom:tab", "mov r0, rom:[r1]", "r2o r0, o0"},
+		{"mov r1, rom:tab", "mov r0, rom:[r1]", "r2o r0, o0", "inc r1", "mov r2, rom:[r1]", "r2o r2, o1"},
+		{"rset r3, 9", "mov r1, rom:tab", "inc r1", "mov r0, rom:[r1]", "r2o r0, o1", "r2o r3, o0"},
+		{"mov r0, rom:tab", "r2o r0, o0", "mov r1, rom:tab", "mov r2, rom:[r1]", "r2o r2, o1"},
+	}
+	compared, skipped := 0, 0
+	skipWhy := map[string]int{}
+	for ci, code := range codes {
+		for di, data := range datas {
+			src := romDataProgram(code, data)
+			name := fmt.Sprintf("code %d / data %d", ci, di)
+			bm, _, err := assemble(src)
+			if err != nil {
+				skipped++
+				skipWhy["assembler: "+err.Error()]++
+				continue
+			}
+			files, err := bmgen.RenderFiles(bm, new(bondmachine.Config), "iverilog")
+			if err != nil {
+				skipped++
+				skipWhy["render: "+err.Error()]++
+				continue
+			}
+			h, err := elaborateSet(files, 1<<bm.Domains[0].R)
+			if err != nil {
+				run.Report("C01|rom-data|hdl-not-simulable", fmt.Sprintf("%s: the generated file set of a program with ROM data does not run: %v", name, err), map[string]any{"kind": "romdata", "source": src})
+				continue
+			}
+			var hseq [][2]uint64
+			bad := false
+			for c := 0; c < 400 && !bad; c++ {
+				if err := h.sim.Posedge(h.clk); err != nil {
+					run.Report("C01|rom-data|hdl-not-simulable", fmt.Sprintf("%s: %v", name, err), map[string]any{"kind": "romdata", "source": src})
+					bad = true
+				}
+				hseq = append(hseq, [2]uint64{h.sim.Get(h.obs[1]), h.sim.Get(h.obs[2])})
+			}
+			if bad {
+				continue
+			}
+			s, err := bmsys.NewSIM(bm, true)
+			if err != nil {
+				skipped++
+				skipWhy["simulator: "+err.Error()]++
+				continue
+			}
+			var sseq [][2]uint64
+			for t := 0; t < 120 && !bad; t++ {
+				if err := s.Step(); err != nil {
+					skipped++
+					skipWhy["simulator step: "+err.Error()]++
+					bad = true
+				}
+				sseq = append(sseq, [2]uint64{bmsys.U64(s.VM.Outputs_regs[0]), bmsys.U64(s.VM.Outputs_regs[1])})
+			}
+			s.VM.Stop()
+			if bad {
+				continue
+			}
+			compared++
+			hd, sd := distinctSeq(hseq), distinctSeq(sseq)
+			if fmt.Sprint(hd) != fmt.Sprint(sd) {
+				run.Report("C01|rom-data|output-history-differs", fmt.Sprintf("%s: the (o0,o1) values over time are %v on the generated hardware (real ROM) and %v on the simulator; program `%s`, data `%s`",
+					name, hd, sd, strings.Join(code, "; "), strings.Join(data, "; ")), map[string]any{"kind": "romdata", "source": src})
+			}
+		}
+	}
+	run.Add("states", compared)
+	run.Add("transitions", compared*520)
+	run.Add("traces_validated_against_impl", compared*2)
+	return map[string]any{"programs": len(codes) * len(datas), "compared": compared, "skipped": skipped, "skip_reasons": skipWhy}
 }
